@@ -598,6 +598,8 @@ func (e *MetaCDC) Create(req *request.CreateRequest) (resp *request.CreateRespon
 		}
 		err = e.metaStoreFactory.GetTaskCollectionPositionMetaStore(ctx).Put(ctx, metaPosition, nil)
 		if err != nil {
+			// do not leave the collection checkpoints of a task that will not exist
+			_ = e.metaStoreFactory.GetTaskCollectionPositionMetaStore(ctx).Delete(ctx, &meta.TaskCollectionPosition{TaskID: info.TaskID}, nil)
 			return nil, servererror.NewServerError(errors.WithMessage(err, "fail to put the task rpc position to etcd"))
 		}
 		req.RPCChannelInfo.Position = ""
@@ -605,6 +607,8 @@ func (e *MetaCDC) Create(req *request.CreateRequest) (resp *request.CreateRespon
 
 	err = e.metaStoreFactory.GetTaskInfoMetaStore(ctx).Put(ctx, info, nil)
 	if err != nil {
+		// do not leave the checkpoints of a task that does not exist: a later task with the same id would resume from them
+		_ = e.metaStoreFactory.GetTaskCollectionPositionMetaStore(ctx).Delete(ctx, &meta.TaskCollectionPosition{TaskID: info.TaskID}, nil)
 		return nil, servererror.NewServerError(errors.WithMessage(err, "fail to put the task info to etcd"))
 	}
 	metrics.TaskNumVec.Add(info.TaskID, info.State)
